@@ -685,13 +685,26 @@ func (r *Runner) execUnOp(st *State, f *Frame, x *ssa.UnOp) {
 		} else if lk := r.condLockOf(p); lk != nil {
 			lv.Lk = lk
 		}
-		if g, ok := x.X.(*ssa.Global); ok && g.Pkg != nil && r.specs.Globals[g.Pkg.Pkg.Path()+"."+g.Name()] == "nonnil" {
-			// declared: initialised to a non-nil value in init and never reassigned (the latter is checked)
+		if g, ok := x.X.(*ssa.Global); ok && g.Pkg != nil && r.specs.Globals[g.Pkg.Pkg.Path()+"."+g.Name()] != "" {
+			// declared facts about a package-level variable that is initialised once in init and
+			// never reassigned (the latter is checked here; the fact itself is an assumption)
+			decl := r.specs.Globals[g.Pkg.Pkg.Path()+"."+g.Name()]
 			if r.globalReassigned(g) {
-				panic(specErr{"global " + g.Name() + " is declared nonnil but is assigned outside init"})
+				panic(specErr{"global " + g.Name() + " has a declared fact but is assigned outside init"})
 			}
-			st.assume(Ne(lv.C[0], Zero))
-			st.nonnil[lv.C[0].S] = true
+			if decl == "nonnil" {
+				st.assume(Ne(lv.C[0], Zero))
+				st.nonnil[lv.C[0].S] = true
+			} else {
+				e, _ := ParseExpr(strings.TrimPrefix(decl, "assume "))
+				env := r.newEnv(st, g.Pkg)
+				env.vars["v"] = lv
+				st.assume(env.EvalBool(e, st))
+				r.note("assumed about global " + g.Name() + ": " + strings.TrimPrefix(decl, "assume "))
+				if strings.Contains(decl, "v != nil") {
+					st.nonnil[lv.C[0].S] = true
+				}
+			}
 		}
 		f.regs[x] = lv
 	case token.NOT:
